@@ -442,6 +442,9 @@ RULES['C08'] = 'operation histories (30-60 steps, seeded) over Has/Get/Set/Clear
 
 RULES['C09'] = 'EXHAUSTIVE over subject types x fields x listed reads: for (*T)(nil), Type().Zero(), new(T) and the read-only values returned by Get for every unpopulated message/list/map field (chains to depth 3): Has, Get (vs dynamicpb defaults), Range, WhichOneof, GetUnknown, IsValid, Size, Marshal, MarshalAppend, Equal (both orders), Clone, Merge-from, protojson/prototext (vs reference output), CheckInitialized; writes (Set, Mutable, SetUnknown, List.Append, Map.Set) must panic; structs holding nil list elements, nil map values and oneof wrappers holding nil are compared with protobuf-go reflection over an identical struct on 9 read-only entry points; distinct by type + subject kind'
 
+RULES['C12'] = 'plugin built from the working tree run on the schema corpus (kind x shape x tag-width matrix, all map key/value pairs, interleaved oneofs, maps at depth, nesting/recursion, cross-package graphs with M mappings and source_relative paths, well-known types, name-collision cases for fields and oneofs, custom options/services, the repository\'s own schemas regenerated, negative requests) plus seeded random schema sets; each emitted package compiled separately; every emitted type driven by the codec/wire/total/alias/reflectdiff/nilread engines at smoke size; non-trivial = every plugin invocation and every behavioural case; distinct by schema set / case'
+RULES['C13'] = 'same request repeated in fresh processes (new map-iteration seeds) and compared byte-for-byte; file_to_generate permuted, reversed, reduced to subsets and to single files (per-file content must not change); 4 environment perturbations incl. a renamed binary run from another directory and an empty environment; regex scan of outputs for dates, times, absolute paths, toolchain versions; one run under strace with an allow-list of opened paths and no network/exec/write; distinct by (kind, request, variant)'
+
 ASSUME = [
     'google.golang.org/protobuf v1.34.0 dynamicpb + proto (reflection codec) is the reference; it and the harness spec codec must agree before a case is decided',
     'the plain-Go-reflection struct reader (struct tags -> field numbers) reads generated structs correctly',
@@ -615,6 +618,301 @@ ASSUME_C06 = [
 ]
 
 
+SMOKE = [  # engine, props whose violations count, -n
+    ('codec', ['C01', 'C02', 'C04', 'C05', 'C07', 'C08'], 25),
+    ('wire', ['C03', 'C14'], 40),
+    ('total', ['C06'], 400),
+    ('alias', ['C07'], 20),
+    ('reflectdiff', ['C08'], 12),
+    ('nilread', ['C09'], 0),
+]
+
+
+def plugin_coverage(w, reqdir):
+    """Run the -cover plugin over all requests; return (percent summary, uncovered template lines)."""
+    try:
+        pc = w.build_plugin(cover=True)
+        cd = w.p('zzcov')
+        os.makedirs(cd, exist_ok=True)
+        env = dict(GOENV, GOCOVERDIR=cd)
+        for s in w.sets:
+            req = open(os.path.join(reqdir, s['name'] + '.req'), 'rb').read()
+            subprocess.run([pc], input=req, stdout=subprocess.DEVNULL, stderr=subprocess.DEVNULL, env=env, timeout=300, cwd=reqdir)
+        pr = subprocess.run(['go', 'tool', 'covdata', 'percent', '-i=' + cd], cwd=w.dir, env=GOENV, stdout=subprocess.PIPE, stderr=subprocess.STDOUT)
+        pct = {}
+        for line in pr.stdout.decode().splitlines():
+            m = re.match(r'\s*(\S+)\s+coverage:\s+([0-9.]+)%', line)
+            if m:
+                pct[m.group(1).replace(MODULE + '/', '')] = float(m.group(2))
+        tf = w.p('zzcov.txt')
+        subprocess.run(['go', 'tool', 'covdata', 'textfmt', '-i=' + cd, '-o=' + tf], cwd=w.dir, env=GOENV, stdout=subprocess.PIPE, stderr=subprocess.STDOUT)
+        unc = []
+        if os.path.exists(tf):
+            for line in open(tf):
+                m = re.match(r'(\S+):(\d+)\.\d+,(\d+)\.\d+ (\d+) (\d+)', line)
+                if m and m.group(5) == '0' and '/features/fastreflection/' in m.group(1) and '/copied/' not in m.group(1):
+                    unc.append('%s:%s-%s' % (m.group(1).replace(MODULE + '/', ''), m.group(2), m.group(3)))
+        return pct, sorted(set(unc))
+    except Exception as e:  # coverage is evidence only
+        return {'error': str(e)}, []
+
+
+def check_gen_total(prop, tier, seed, repo, keep):
+    """C12: the plugin is total on the schema corpus, its output compiles, and the emitted types behave."""
+    t0 = time.time()
+    with Work(prop, repo, tier, seed, keep) as w:
+        bins = w.prepare_harness(fresh=True, nrandom=4 if tier == 'quick' else 24)
+        viol = []
+        samples = []
+        by_set = {s['name']: s for s in w.sets}
+        nev = 0
+        for ev in w.events:
+            s = by_set[ev['set']]
+            nev += 1
+            st = ev.get('status')
+            rep = dict(engine='gen', set=ev['set'], parameter=s.get('parameter', ''), seed=seed)
+            tag = '%s (family %s, parameter %r)' % (ev['set'], ev['family'], s.get('parameter', ''))
+            if st in ('crash', 'timeout', 'bad-response'):
+                viol.append(dict(prop='C12', key='gen/plugin-' + st, type=ev['set'], detail='%s: plugin %s (exit %s)\n%s%s' % (tag, st, ev.get('exit'), ev.get('stderr', ''), ev.get('detail', '')), replay=rep))
+                continue
+            files = [f['path'] for f in (ev.get('files') or [])]
+            if s['expect'] == 'error':
+                if st != 'error':
+                    viol.append(dict(prop='C12', key='gen/unservable-request-not-refused', type=ev['set'], detail='%s: expected an error response, got files %s' % (tag, files), replay=rep))
+                continue
+            if s['expect'] == 'any':
+                continue
+            if st == 'error':
+                viol.append(dict(prop='C12', key='gen/error-on-valid-schema', type=ev['set'], detail='%s: plugin answered with error: %s' % (tag, ev.get('error', '')[:1500]), replay=rep))
+                continue
+            exp = sorted(s.get('expect_files') or [])
+            if s['expect'] == 'nofile':
+                exp = []
+            if sorted(files) != exp:
+                viol.append(dict(prop='C12', key='gen/unexpected-output-files', type=ev['set'], detail='%s: generated files %s, expected %s' % (tag, sorted(files), exp), replay=rep))
+            for ip, res in (ev.get('compile') or {}).items():
+                if res != 'ok':
+                    viol.append(dict(prop='C12', key='gen/output-does-not-compile', type=ev['set'], detail='%s: package %s does not compile:\n%s' % (tag, ip, res[:1500]), replay=rep))
+            if len(samples) < 4:
+                samples.append(dict(set=ev['set'], family=ev['family'], parameter=s.get('parameter', ''), messages=s.get('messages'), files=files))
+        # behavioural smoke on every freshly generated type
+        merged_all = dict(evals=nev, distinct=len({e['set'] for e in w.events}), violations=viol, n_violations=len(viol), inconclusive={}, counters={}, samples=samples, types=[], notes=[])
+        for eng, props, n in SMOKE:
+            args = ['-types', '^vf\\.']
+            if n:
+                args += ['-n', str(n if tier == 'quick' else n * 8)]
+            if eng == 'total':
+                reps, v, inc = run_shards_isolated(w, bins['plain'], eng, 'C06', extra_args=args)
+                for x in v:
+                    x['prop'] = 'C06'
+                extra = v
+            else:
+                reps = w.run_engine(bins['plain'], eng, args=args)
+                extra = []
+            for pid in props:
+                m = merge_reports(reps, pid)
+                merged_all['evals'] += m['evals']
+                merged_all['distinct'] += m['distinct']
+                merged_all['types'] += m['types']
+                merged_all['counters']['smoke/%s/%s-cases' % (eng, pid)] = m['evals']
+                for k, c in m['inconclusive'].items():
+                    merged_all['inconclusive'][pid + '/' + k] = merged_all['inconclusive'].get(pid + '/' + k, 0) + c
+                for x in m['violations'] + [e for e in extra if e.get('prop') == pid]:
+                    merged_all['violations'].append(dict(prop='C12', key='gen/behaviour/%s/%s' % (pid, x['key']), type=x.get('type', ''), detail='freshly generated type violates %s: %s' % (pid, x.get('detail', '')), replay=x.get('replay')))
+                    merged_all['n_violations'] += 1
+        pct, unc = plugin_coverage(w, w.p('zzreq'))
+        extra = gen_summary(w)
+        extra.update(plugin_invocations=nev, template_statement_coverage_percent=pct, uncovered_template_blocks=unc[:200],
+                     families=sorted({e['family'] for e in w.events}))
+        return finish(prop, tier, seed, t0, merged_all, RULES[prop], ASSUME, 40, 30, extra=extra)
+
+
+def decode_response(w, respbytes, tag):
+    f = w.p('zzout', tag + '.resp')
+    open(f, 'wb').write(respbytes)
+    q = subprocess.run([w.p('zzbin', 'schemagen'), '-decode', f, '-dump'], stdout=subprocess.PIPE, stderr=subprocess.PIPE, timeout=120)
+    if q.returncode != 0:
+        raise Broken('cannot decode plugin response %s: %s' % (tag, q.stderr.decode()[-500:]))
+    return json.loads(q.stdout)
+
+
+def check_gen_determinism(prop, tier, seed, repo, keep):
+    """C13: the response is a pure function of the request."""
+    t0 = time.time()
+    import random, socket
+    rnd = random.Random(seed)
+    with Work(prop, repo, tier, seed, keep) as w:
+        sg = w.build_schemagen()
+        plugin = w.build_plugin()
+        reqdir = w.p('zzreq')
+        os.makedirs(reqdir, exist_ok=True)
+        run([sg, '-out', reqdir, '-seed', str(seed), '-random', str(3 if tier == 'quick' else 12)], cwd=w.dir, timeout=600)
+        sets = [s for s in json.load(open(os.path.join(reqdir, 'manifest.json')))['sets'] if s['expect'] == 'ok']
+        w.sets = sets
+        repeats = 6 if tier == 'quick' else 30
+        viol, samples = [], []
+        evals, distinct = 0, set()
+        counters = {}
+
+        def runp(req, exe=plugin, env=None, cwd=None):
+            p = subprocess.run([exe], input=req, stdout=subprocess.PIPE, stderr=subprocess.PIPE, timeout=300, env=env, cwd=cwd or reqdir)
+            if p.returncode != 0:
+                raise Broken('plugin exited %d: %s' % (p.returncode, p.stderr.decode()[-800:]))
+            return p.stdout
+
+        def files_of(resp, tag):
+            d = decode_response(w, resp, tag)
+            if d.get('error'):
+                raise Broken('plugin error on corpus set: ' + d['error'][:500])
+            return {f['name']: f['content'] for f in d['files']}
+
+        def first_diff(a, b):
+            la, lb = a.splitlines(), b.splitlines()
+            for i, (x, y) in enumerate(zip(la, lb)):
+                if x != y:
+                    return 'line %d: %r vs %r' % (i + 1, x[:200], y[:200])
+            return 'length %d vs %d lines' % (len(la), len(lb))
+
+        # 1. repeated fresh processes
+        chosen = [s for s in sets if s['family'] in ('matrix', 'oneofs', 'maps', 'xpkg', 'wkt', 'regen', 'random', 'nest', 'opts')]
+        if tier == 'quick':
+            chosen = [s for s in chosen if s['name'] in ('matrix-w2', 'matrix-m1', 'oneofs', 'xpkg-all', 'wkt', 'regen-regentestpb', 'regen-regentest3', 'nest', 'opts') or s['family'] == 'random']
+        base = {}
+        with cf.ThreadPoolExecutor(max_workers=NCPU) as ex:
+            jobs = {}
+            for s in chosen:
+                req = open(os.path.join(reqdir, s['name'] + '.req'), 'rb').read()
+                jobs[s['name']] = [ex.submit(runp, req) for _ in range(repeats)]
+            for s in chosen:
+                outs = [j.result() for j in jobs[s['name']]]
+                base[s['name']] = outs[0]
+                evals += len(outs)
+                distinct.add('repeat|' + s['name'])
+                counters['repeat-runs'] = counters.get('repeat-runs', 0) + len(outs)
+                for k, o in enumerate(outs[1:], 1):
+                    if o != outs[0]:
+                        fa, fb = files_of(outs[0], 'a'), files_of(o, 'b')
+                        where = [n for n in fa if fa.get(n) != fb.get(n)]
+                        viol.append(dict(prop='C13', key='gen/nondeterministic-across-runs', type=s['name'],
+                                         detail='request %s: run 0 and run %d of the same request differ in %s: %s' % (s['name'], k, where[:3], first_diff(fa[where[0]], fb.get(where[0], '')) if where else 'response framing'),
+                                         replay=dict(engine='gen13', set=s['name'], seed=seed)))
+                        break
+        # 2. permutations and subsets of file_to_generate
+        multi = [s for s in chosen if len(s['generate']) > 1]
+        for s in multi:
+            req = open(os.path.join(reqdir, s['name'] + '.req'), 'rb').read()
+            ref = files_of(base[s['name']], 'ref')
+            gens = list(s['generate'])
+            variants = []
+            for _ in range(3):
+                g2 = gens[:]
+                rnd.shuffle(g2)
+                variants.append(('permuted', g2))
+            variants.append(('reversed', gens[::-1]))
+            for g in gens:
+                variants.append(('alone', [g]))
+            if len(gens) > 2:
+                variants.append(('subset', gens[:2]))
+                variants.append(('subset', gens[1:]))
+            for kind, g2 in variants:
+                q = subprocess.run([sg, '-regenerate', os.path.join(reqdir, s['name'] + '.req'), '-generate', ','.join(g2)], stdout=subprocess.PIPE, stderr=subprocess.PIPE, timeout=60)
+                if q.returncode != 0:
+                    raise Broken('schemagen -regenerate failed: ' + q.stderr.decode()[-300:])
+                out = files_of(runp(q.stdout), 'var')
+                evals += 1
+                distinct.add('%s|%s|%s' % (kind, s['name'], ','.join(g2)))
+                counters['file_to_generate-' + kind] = counters.get('file_to_generate-' + kind, 0) + 1
+                for name, content in out.items():
+                    if name in ref and ref[name] != content:
+                        viol.append(dict(prop='C13', key='gen/content-depends-on-cogenerated-set/' + kind, type=s['name'],
+                                         detail='request %s: content of %s differs when file_to_generate is %s (%s) instead of %s: %s' % (s['name'], name, g2, kind, gens, first_diff(ref[name], content)),
+                                         replay=dict(engine='gen13', set=s['name'], generate=g2, seed=seed)))
+                missing = [n for n in ref if n not in out and any(n.endswith(os.path.basename(x).replace('.proto', '.pulsar.go')) for x in g2)]
+                if missing and kind != 'alone' and kind != 'subset':
+                    viol.append(dict(prop='C13', key='gen/files-missing-after-permutation', type=s['name'], detail='%s: %s missing with order %s' % (s['name'], missing, g2), replay=dict(engine='gen13', set=s['name'], generate=g2)))
+            if len(samples) < 3:
+                samples.append(dict(set=s['name'], files_to_generate=gens, variants=[(k, v) for k, v in variants][:6]))
+        # 3. environment perturbation
+        odd = w.p('zzbin', 'qq-zebra-plugin-7f3a')
+        shutil.copy(plugin, odd)
+        otherdir = w.p('zz-other-cwd-91c2')
+        os.makedirs(otherdir, exist_ok=True)
+        perturb = [
+            ('cwd', plugin, dict(GOENV), otherdir, ['zz-other-cwd-91c2']),
+            ('env', plugin, dict(GOENV, HOME='/nonexistent/home-5d1e', TZ='Pacific/Kiritimati', LANG='tr_TR.UTF-8', LC_ALL='tr_TR.UTF-8', USER='user-ab12cd', LOGNAME='user-ab12cd', HOSTNAME='host-77aa', GOMAXPROCS='1', TMPDIR='/nonexistent/tmp-3c'), reqdir, ['home-5d1e', 'Kiritimati', 'user-ab12cd', 'host-77aa', 'tmp-3c']),
+            ('argv0', odd, dict(GOENV, GOMAXPROCS='7'), otherdir, ['qq-zebra-plugin-7f3a', 'zz-other-cwd-91c2']),
+            ('empty-env', plugin, {'PATH': '/usr/bin'}, reqdir, []),
+        ]
+        hostname = socket.gethostname()
+        for s in chosen[:8] if tier == 'quick' else chosen:
+            req = open(os.path.join(reqdir, s['name'] + '.req'), 'rb').read()
+            for name, exe, env, cwd, needles in perturb:
+                out = runp(req, exe=exe, env=env, cwd=cwd)
+                evals += 1
+                distinct.add('perturb|%s|%s' % (name, s['name']))
+                counters['perturbation-' + name] = counters.get('perturbation-' + name, 0) + 1
+                if out != base[s['name']]:
+                    fa, fb = files_of(base[s['name']], 'a'), files_of(out, 'b')
+                    where = [n for n in fa if fa.get(n) != fb.get(n)]
+                    viol.append(dict(prop='C13', key='gen/environment-dependent/' + name, type=s['name'],
+                                     detail='request %s: output differs under perturbation %r: %s' % (s['name'], name, first_diff(fa[where[0]], fb.get(where[0], '')) if where else 'framing'),
+                                     replay=dict(engine='gen13', set=s['name'], perturbation=name, seed=seed)))
+                for nd in needles + [hostname]:
+                    if nd and nd.encode() in out:
+                        viol.append(dict(prop='C13', key='gen/environment-text-in-output', type=s['name'], detail='request %s: output contains %r' % (s['name'], nd), replay=dict(engine='gen13', set=s['name'], perturbation=name)))
+            # 4. scan for timestamps / absolute paths
+            txt = '\n'.join(files_of(base[s['name']], 'scan').values())
+            for rx, what in ((r'\b20[0-9][0-9]-[01][0-9]-[0-3][0-9]\b', 'date'), (r'\b[0-2][0-9]:[0-5][0-9]:[0-5][0-9]\b', 'time of day'), (r'(?<![\w.])/(root|home|tmp|var|usr|verif|repo)/[\w./-]+', 'absolute path'), (r'go1\.[0-9]+(\.[0-9]+)?', 'toolchain version')):
+                m = re.search(rx, txt)
+                if m:
+                    viol.append(dict(prop='C13', key='gen/%s-in-output' % what.replace(' ', '-'), type=s['name'], detail='request %s: generated text contains a %s: %r' % (s['name'], what, m.group(0)), replay=dict(engine='gen13', set=s['name'])))
+        # 5. hermeticity observed with strace
+        st_info = {}
+        if shutil.which('strace'):
+            s0 = chosen[0]
+            req = open(os.path.join(reqdir, s0['name'] + '.req'), 'rb').read()
+            lg = w.p('zzout', 'strace.log')
+            p = subprocess.run(['strace', '-f', '-qq', '-e', 'trace=openat,open,creat,connect,socket,execve,unlink,rename,mkdir,bind,sendto', '-o', lg, plugin], input=req, stdout=subprocess.PIPE, stderr=subprocess.PIPE, timeout=300, cwd=reqdir)
+            evals += 1
+            distinct.add('strace')
+            opened, bad = set(), []
+            allow = re.compile(r'^(/sys/kernel/mm/transparent_hugepage/.*|/proc/self/.*|/proc/sys/.*|/etc/localtime|/dev/(null|urandom)|/etc/ld\.so\.cache|/lib/.*|/usr/lib/.*|/lib64/.*|/etc/nsswitch\.conf|/etc/resolv\.conf|/sys/fs/cgroup/.*|/proc/stat|/proc/cpuinfo|/proc/meminfo)$')
+            if os.path.exists(lg):
+                nexec = 0
+                for line in open(lg, errors='replace'):
+                    m = re.search(r'\b(openat|open|creat|unlink|rename|mkdir)\((?:AT_FDCWD, )?"([^"]*)"(.*)', line)
+                    if m:
+                        opened.add(m.group(2))
+                        wr = 'O_WRONLY' in m.group(3) or 'O_RDWR' in m.group(3) or 'O_CREAT' in m.group(3) or m.group(1) in ('creat', 'unlink', 'rename', 'mkdir')
+                        if wr and m.group(2) != '/dev/null':
+                            bad.append('writes/creates ' + m.group(2))
+                        elif not allow.match(m.group(2)) and ' = -1 ' not in line and os.path.realpath(m.group(2)) != os.path.realpath(plugin):
+                            bad.append('opens ' + m.group(2))
+                    if re.search(r'\b(connect|bind|sendto)\(', line) or (re.search(r'\bsocket\(', line) and 'AF_UNIX' not in line):
+                        bad.append('network syscall: ' + line.strip()[:120])
+                    if 'execve(' in line:
+                        nexec += 1
+                if nexec > 1:
+                    bad.append('%d execve calls' % nexec)
+                st_info = dict(strace_paths_opened=sorted(opened), strace_exit=p.returncode)
+                for b in bad[:5]:
+                    viol.append(dict(prop='C13', key='gen/not-hermetic', type=s0['name'], detail='plugin ' + b, replay=dict(engine='gen13', set=s0['name'])))
+            else:
+                st_info = dict(strace='no log produced')
+        else:
+            st_info = dict(strace='not available')
+        merged = dict(evals=evals, distinct=len(distinct), violations=viol, n_violations=len(viol), inconclusive={}, counters=counters, samples=samples, types=[], notes=[])
+        extra = dict(requests=[s['name'] for s in chosen], repeats_per_request=repeats, **st_info)
+        return finish(prop, tier, seed, t0, merged, RULES[prop], ASSUME_GEN, 40, 20, extra=extra)
+
+
+ASSUME_GEN = [
+    'schemas are built programmatically (protoc is not installed) and validated with protodesc; the plugin is driven over stdin/stdout exactly as protoc would',
+    'environment independence covers the perturbed variables (cwd, HOME, TZ, LANG, USER, HOSTNAME, TMPDIR, GOMAXPROCS, argv[0] name and path, empty environment) only',
+    'sampling of schemas: held on the requests observed only',
+]
+
+
 def gen_summary(w):
     if not w.events:
         return {}
@@ -626,7 +924,7 @@ CHECKS = {
     'C01': check_engine, 'C02': check_engine, 'C04': check_engine, 'C05': check_engine,
     'C03': check_engine, 'C14': check_engine,
     'C06': check_total, 'C07': check_engine,
-    'C08': check_engine, 'C09': check_engine, 'C15': check_engine, 'C16': check_engine, 'C17': check_engine, 'C18': check_isolated_engine,
+    'C08': check_engine, 'C09': check_engine, 'C12': check_gen_total, 'C13': check_gen_determinism, 'C15': check_engine, 'C16': check_engine, 'C17': check_engine, 'C18': check_isolated_engine,
 }
 
 
